@@ -107,6 +107,10 @@ struct Shared {
     /// observations made inside hooks that contradict the property
     hook_faults: std::sync::Mutex<Vec<String>>,
     mode: Mode,
+    /// further (padded) notifies the first connect callback queues: enough, sometimes, to keep
+    /// the writer busy while the first request is already being read
+    extra_hellos: usize,
+    hello_pad: usize,
 }
 
 impl Shared {
@@ -183,6 +187,9 @@ fn build_server(sh: &Arc<Shared>, limits: WebSocketLimits) -> WebSocketServer {
                 a.hook_faults.lock().unwrap().push(format!("peer {id} already in the registry before its insert hook ran"));
             }
             let _ = peer.send_notify("/hello", NotifyBody::Json(serde_json::to_vec(&json!({"peer": id})).unwrap()));
+            for k in 0..a.extra_hellos {
+                let _ = peer.send_notify("/hello", NotifyBody::Json(serde_json::to_vec(&json!({"peer": id, "k": k, "pad": "p".repeat(a.hello_pad)})).unwrap()));
+            }
         })
         .on_peer_disconnect(move |id: PeerId| {
             x.log.push("disconnect-X", id.0);
@@ -302,7 +309,17 @@ async fn client(case: Case, sh: Arc<Shared>, conn: u64, ws: crate::families::ws_
     // the first request is pipelined right behind the handshake: connect-hook notifies must
     // still come first on the wire
     let mut next_id = 1u64;
-    let _ = send_frame(&mut sink, &Frame::new(next_id, b"/echo", b"{\"first\":true}").with_formats(1, 2)).await;
+    // (... whoever produces that response: a handler, or the reader itself rejecting the request)
+    let first = match simkernel::choose(4) {
+        0 => Frame::new(next_id, b"/no/such/method", b"{\"first\":true}").with_formats(1, 2),
+        1 => {
+            let mut f = Frame::new(next_id, b"/echo", b"{\"first\":true}").with_formats(1, 2);
+            f.version = 9;
+            f
+        }
+        _ => Frame::new(next_id, b"/echo", b"{\"first\":true}").with_formats(1, 2),
+    };
+    let _ = send_frame(&mut sink, &first).await;
     let mut stream = Some(stream);
     let mut collector = None;
     if plan.phase != Phase::OutboundBusy {
@@ -471,8 +488,10 @@ fn c15_ws_lifecycle(case: &Case) {
     net::reset(NetConfig { capacity: pick(&[4096usize, 65_536]), lat_min: pick(&[0u64, 10_000]), lat_max: pick(&[10_000u64, 300_000]), max_segment: pick(&[0usize, 0, 97]) });
     let nconn = pick(&[1u32, 1, 2, 2, 3, 4, 6, 8, 16, 32]) as usize;
     let plans: Vec<Plan> = (0..nconn).map(|_| draw_plan(mode)).collect();
+    let extra_hellos = pick(&[0usize, 0, 3, 6]);
+    let hello_pad = pick(&[0usize, 1500]);
     let drain_ms = pick(&[50u64, 300, 2_000]);
-    case.sample(json!({"mode": format!("{mode:?}"), "connections": nconn, "drain_timeout_ms": drain_ms,
+    case.sample(json!({"mode": format!("{mode:?}"), "connections": nconn, "extra_connect_notifies": extra_hellos, "connect_notify_pad": hello_pad, "drain_timeout_ms": drain_ms,
         "plans": plans.iter().map(|p| format!("{:?}/{:?}/{:?}", p.handshake, p.phase, p.cause)).collect::<Vec<_>>()}));
     for p in &plans {
         case.cover("mode/handshake/phase/cause", format!("{mode:?}/{:?}/{:?}/{:?}", p.handshake, p.phase, p.cause));
@@ -491,6 +510,8 @@ fn c15_ws_lifecycle(case: &Case) {
             errors: Default::default(),
             hook_faults: Default::default(),
             mode,
+            extra_hellos,
+            hello_pad,
         });
         let limits = WebSocketLimits::default().with_max_incoming_message_size(Some(65_536)).with_max_incoming_frame_size(Some(65_536));
         let server = build_server(&sh, limits);
